@@ -8,6 +8,8 @@ for s in "$@"; do
   for p in C01 C02 C03 C04 C05 C06 C07 C08 C09 C10 C11 C12 C13 C14 C15 C16 C17 C18 C19 C20; do
     out=$(VERIF_SEED=$s ./check $p $tier 2>&1); rc=$?
     if [ $rc -ne 0 ]; then fail=$((fail+1)); echo "FAIL seed=$s $p rc=$rc"; echo "$out" | grep -v KNOWN | tail -4; fi
+    # on the unchanged tree every translator must translate: a degraded tie here is a regression of the translator, not of verde
+    if echo "$out" | grep -q "tie-degraded"; then fail=$((fail+1)); echo "FAIL seed=$s $p translator degraded on the clean tree"; echo "$out" | grep "tie-degraded" | cut -c1-300; fi
   done
 done
 echo "sweep done tier=$tier seeds=$* failures=$fail"
